@@ -34,6 +34,8 @@ inductive Rule where
   | m2
   /-- a listener of a Multi **full-sync** channel: `len_after ≤ 1 → wake(that listener)` -/
   | m1
+  /-- a listener of the **log (mmap)** Multi channel: every listed listener is woken after every publication -/
+  | all
   deriving DecidableEq, Repr
 
 def Rule.target (r : Rule) (MAX lenAfter : Nat) : Option Nat :=
@@ -44,6 +46,7 @@ def Rule.target (r : Rule) (MAX lenAfter : Nat) : Option Nat :=
   | .cb     => if lenAfter - 1 ≤ 2 then some 0 else none
   | .m2     => if lenAfter ≤ 2 then some 0 else none
   | .m1     => if lenAfter ≤ 1 then some 0 else none
+  | .all    => some 0
 
 inductive Res where
   | ok
